@@ -3,8 +3,6 @@
 package formatter
 
 import (
-	"strings"
-
 	"github.com/shopspring/decimal"
 
 	"github.com/juev/hledger-lsp/internal/parser"
@@ -34,31 +32,30 @@ func verifC04Number(maxI, maxF, maxPlaces int) {
 	qty, err := decimal.NewFromString(src)
 	zzverif.Assert(err == nil, "harness: source number is a decimal")
 
-	sample, _, _, places := c04SymFormat(maxPlaces)
+	sample, dm, sep, places := c04SymFormat(maxPlaces)
 	format := ParseNumberFormat(sample)
 	out := FormatNumber(qty, format)
 	zzverif.Observe("out", out)
 
 	// class predicates (over the inputs)
-	lossy := nf > places && F[places:] != strings.Repeat("0", nf-places)
-
-	if zzverif.Known("format-rounds-to-fewer-decimals") && lossy {
-		zzverif.Reach("kf:format-rounds-to-fewer-decimals")
+	if zzverif.Known("c04-format-rounds-to-fewer-decimals") && fLossyNum(F, places) {
+		zzverif.Reach("kf:c04-format-rounds-to-fewer-decimals")
+		return
+	}
+	if zzverif.Known("c04-format-three-decimals-read-as-thousands") && dm != 0 && places == 3 && fThousandNum(I, F, sep) {
+		zzverif.Reach("kf:c04-format-three-decimals-read-as-thousands")
 		return
 	}
 
 	j, errs := parser.Parse("2024-01-01 x\n    a:b  " + out + " USD\n")
-	zzverif.Assert(len(errs) == 0, "formatted number is re-read without a syntax error")
+	zzverif.Assert(len(errs) == 0, "C04: the formatted number is re-read with a syntax error")
 	zzverif.Assert(len(j.Transactions) == 1 && len(j.Transactions[0].Postings) == 1 && j.Transactions[0].Postings[0].Amount != nil,
-		"formatted number is re-read as an amount")
+		"C04: the formatted number is not re-read as an amount")
 	got := j.Transactions[0].Postings[0].Amount
-	zzverif.Assert(got.Commodity.Symbol == "USD", "commodity after the formatted number is re-read")
-	same := got.Quantity.Equal(qty)
-	if zzverif.Known("format-three-decimals-read-as-thousands") && places == 3 && c04ThousandLike(out) {
-		zzverif.Reach("kf:format-three-decimals-read-as-thousands")
-		return
-	}
-	zzverif.Assert(same, "value of the formatted number differs from the original quantity")
+	zzverif.Assert(got.Commodity.Symbol == "USD", "C04: the commodity after the formatted number is not re-read")
+	zzverif.Assert(got.Quantity.Equal(qty), "C04: the value of the formatted number differs from the original quantity")
+	zzverif.Assert(!zzverif.Known(fCheckWide) || !(fLossyNum(F, places) || (dm != 0 && places == 3 && fThousandNum(I, F, sep))),
+		"harness: a class predicate of C04 holds but nothing is violated")
 	zzverif.Reach("C04.number.end")
 }
 
